@@ -23,6 +23,10 @@ def manager_models(pid, tier):
     st = mc.run_model("MC_Manager", "MC_Manager", cfg, consts, keep_out=True, timeout=3000)
     states = tlc.tagged_json(st.pop("out"), "EMIT")
     stats = [st]
+    if not q:
+        # one level deeper, without emission (1.3 M distinct states, about 6 minutes)
+        stats.append(mc.run_model("MC_Manager (deep)", "MC_Manager", "MC_Manager_deep.cfg",
+                                  consts.replace("MaxLen=5", "MaxLen=6"), timeout=3400))
     if pid == "C03":
         # the bucket assignment of one walk step for ALL integers (Apalache, inductive); the step operator
         # is the one Manager.tla's Walk is built from (Buckets.tla)
